@@ -475,7 +475,7 @@ pub fn run_one_th(seed: u64, rt: &tokio::runtime::Runtime) -> Outcome {
         v.push((c.clone(), dd.clone()));
     }
     drop(callee);
-    th::wait_until(10_000, || vt::global_leaks().is_empty());
+    let _ = crate::th::settle_leaks();
     for l in vt::global_leaks() {
         v.push(("leak".into(), l));
     }
